@@ -3,6 +3,8 @@ package main
 import (
 	"fmt"
 	"go/token"
+	"go/types"
+	"regexp"
 	"sort"
 	"strings"
 
@@ -204,6 +206,12 @@ func checkShape(r *Run, p *Program, rule, key string, want []string, what, conse
 		r.ok(rule, key, p.Pos(f.Pos()), what+": "+strings.Join(got, "; "), true)
 		return
 	}
+	// a field the reviewed definition names no longer exists anywhere in the package: it was renamed, the definition
+	// cannot be compared (reported in the evidence, not a violation: a rename does not change behaviour)
+	if gone := missingFields(p, want); len(gone) > 0 {
+		r.advisory(rule, key, p.Pos(f.Pos()), "reviewed definition not compared: field(s) "+strings.Join(gone, ", ")+" no longer exist (renamed); the table needs updating")
+		return
+	}
 	r.bad(rule, key, p.Pos(f.Pos()), fmt.Sprintf("%s computes something else than the reviewed definition (%s). Expected but absent: {%s}; present but not expected: {%s}. %s", key, what, strings.Join(missing, "; "), strings.Join(extra, "; "), consequence))
 }
 
@@ -245,4 +253,42 @@ func trivialReturn(s string) bool {
 		}
 	}
 	return true
+}
+
+var fieldTokRe = regexp.MustCompile(`\.([A-Za-z_][A-Za-z0-9_]*)`)
+
+// missingFields lists field names used in the reviewed shape that are not a field of any struct of package pogreb.
+func missingFields(p *Program, want []string) []string {
+	have := map[string]bool{}
+	sc := p.Main.Types.Scope()
+	for _, nm := range sc.Names() {
+		tn, ok := sc.Lookup(nm).(*types.TypeName)
+		if !ok {
+			continue
+		}
+		if st, ok := tn.Type().Underlying().(*types.Struct); ok {
+			for i := 0; i < st.NumFields(); i++ {
+				have[st.Field(i).Name()] = true
+			}
+		}
+	}
+	seen := map[string]bool{}
+	var out []string
+	for _, w := range want {
+		for _, m := range fieldTokRe.FindAllStringSubmatch(w, -1) {
+			n := m[1]
+			if n == "com" || n == "bucketHandle" || n == "slot" || n == "bucketIterator" || seen[n] {
+				continue
+			}
+			// tokens that are type or function names (after "pogreb.") are not fields
+			if strings.Contains(w, "pogreb."+n) || strings.Contains(w, "github."+n) || strings.Contains(w, "fs.File."+n) || strings.Contains(w, "File."+n+"(") {
+				continue
+			}
+			seen[n] = true
+			if !have[n] {
+				out = append(out, n)
+			}
+		}
+	}
+	return out
 }
